@@ -11,7 +11,7 @@ OPS = {
     'multi_pairing': 1, 'multi_miller_loop': 2, 'final_exp': 3, 'g2_prepare': 4, 'g1_prepare': 5,
     'bilinearity_check': 10, 'additivity_check': 11, 'multi_pairing_vs_product': 12,
     'pairing_with_identity_is_one': 13, 'output_order_divides_r': 14,
-    'generators_nondegenerate': 15, 'prepared_vs_unprepared': 16,
+    'generators_nondegenerate': 15, 'prepared_vs_unprepared': 16, 'pairing_with_decoded_identity': 17,
 }
 LAW_OPS = {k for k, v in OPS.items() if v >= 10}
 
@@ -550,6 +550,10 @@ def gen(rng, tier):
         # identity in the G2 slot: MNT4/MNT6 panic (F18, known finding)
         yield 'pairing_with_identity_is_one', [[e], [s, 0]], ('mnt_g2_identity/' + tag if fam in (2, 3) else tag + '/Q0')
         yield 'pairing_with_identity_is_one', [[e], [0, 0]], ('mnt_g2_identity_both/' + tag if fam in (2, 3) else tag + '/PQ0')
+        # identity in the form produced by deserializing a flagged, non-blank uncompressed buffer
+        s2, _ = nz_scalar(rng, r)
+        t2, _ = nz_scalar(rng, r)
+        yield 'pairing_with_decoded_identity', [[e], [s2, t2], [rng.randrange(1, 256) for _ in range(7)]], tag + '/decoded_identity'
         # multi-pairing vs product of pairings
         ns = [0, 1, 3, 4, 5, 8, 9] if quick else [0, 1, 2, 3, 4, 5, 7, 8, 9, 12, 13] * 3
         if big and quick:
